@@ -48,7 +48,11 @@ XStep(st, e, t) ==
            ELSE IF e.raised THEN Bad(st, "valid state name was rejected")
            ELSE IF e.who = "master" THEN MasterCmd(st, e, t, NameToCmd(e.name))
            ELSE SlaveCmd(st, e, t, NameToCmd(e.name))
-      [] e.e = "hb" -> Finish(st, e, [st EXCEPT !.m = OnHeartbeat(e.byte)], <<>>)
+      [] e.e = "hb" ->
+           \* every heartbeat callback sees the state byte without the toggle bit, once, in order
+           IF e.cbs # << <<1, e.byte % 128>>, <<2, e.byte % 128>> >>
+             THEN Bad(st, "heartbeat callbacks were not invoked once each, in order, with the reported state")
+           ELSE Finish(st, e, [st EXCEPT !.m = OnHeartbeat(e.byte)], <<>>)
       [] e.e = "wait" ->
            \* fed: heartbeat bytes delivered while the caller was waiting
            LET after == IF e.fed = <<>> THEN st.m ELSE OnHeartbeat(e.fed[Len(e.fed)])
